@@ -46,15 +46,27 @@ def pipeline(tier):
     p = vlib.run_cmd([binary, "-test.run", "^TestVerifConfig$", "-test.timeout", "3000s"], env=env, cwd=wd)
     if p.returncode != 0:
         raise Inconclusive("config harness failed (exit %d):\n%s" % (p.returncode, p.stdout[-3000:]))
+    # the last clause: the real `dawn tidy` rewrites project files (package cmd/dawn)
+    tbin = vlib.build_test("cmd/dawn", wd, name="dawncmd")
+    p = vlib.run_cmd([tbin, "-test.run", "^TestVerifTidy$", "-test.timeout", "600s"], env=dict(os.environ, VERIF_OUT=opath), cwd=wd)
+    if p.returncode != 0:
+        raise Inconclusive("tidy harness failed (exit %d):\n%s" % (p.returncode, p.stdout[-3000:]))
     lines = [json.loads(l) for l in open(opath)]
     res["calls"] = sum(len(l["events"]) for l in lines)
-    res["distinct_configs"] = len({json.dumps(e["c"], sort_keys=True) for l in lines for e in l["events"]})
+    res["rewrites"] = sum(1 for l in lines for e in l["events"] if e["ev"] == "Rewrite")
+    if not res["rewrites"]:
+        raise Inconclusive("the tidy harness recorded nothing")
+    res["distinct_configs"] = len({json.dumps(e["c"], sort_keys=True) for l in lines for e in l["events"] if e["ev"] == "RoundTrip"})
     by_id = {l["id"]: l for l in lines}
     viols, n = vlib.eval_traces(SPEC, "ConfigTraceP", "ConfigTraceP.cfg", lines, shards=8, timeout=1800)
     out = []
     for v in viols:
         for x in v["viol"]:
             e = by_id[v["id"]]["events"][x["at"] - 1]
+            if e["ev"] == "Rewrite":
+                out.append({"prop": "C19", "what": x["what"], "cls": {"name": "tidy", "nreq": 0}, "c": e["before"], "c2": e["after"],
+                            "errs": [e["err"], "", ""], "id": v["id"]})
+                continue
             out.append({"prop": "C19", "what": x["what"], "cls": e["cls"], "c": e["c"], "c2": e["c2"],
                         "errs": [e["werr"], e["lerr"], e["w2err"]], "id": v["id"]})
     res["violations"] = out
@@ -74,7 +86,7 @@ def check(prop, tier):
     if not res["design"]["ok"]:
         raise Inconclusive("TLC rejects ConfigStore.tla: %s" % res["design"]["errors"])
     viols = [dict(v, sig=sig_of(v)) for v in res["violations"]]
-    cov = {"evaluations": res["calls"], "distinct_nontrivial": res["distinct_configs"], "samples": res["samples"],
+    cov = {"project_files_rewritten_by_the_real_tidy_command": res.get("rewrites", 0), "evaluations": res["calls"], "distinct_nontrivial": res["distinct_configs"], "samples": res["samples"],
            "case_structures_from_tlc": res["cases"], "tlc_states": res["design"]["distinct"], "exhaustive": False,
            "rule": "TLC enumerates every combination of character classes (13 classes + the empty string) for the project name and the requirement names, ignore patterns, 0..2 requirements and 7 path forms; the harness instantiates each class with seeded concrete strings (quotes, backslashes, control characters, newlines, non-BMP Unicode); distinct = distinct concrete configurations",
            "family_wall_s": round(res["wall_s"], 1)}
